@@ -23,6 +23,7 @@ import Dawgs.Proofs.C01Frag
 import Dawgs.Proofs.C01S2Sound
 import Dawgs.Proofs.C01ChainSound
 import Dawgs.Proofs.C01Count
+import Dawgs.Proofs.C01CountHop
 namespace Dawgs.C01.Props
 open Dawgs Dawgs.Sql Dawgs.C01.Proofs
 
@@ -300,6 +301,56 @@ theorem c01_partial_S4 (flipOf : S2.Query → Bool) (flipCh : Ch.Query → Bool)
       · rw [hsql] at hm; cases hm
 
 theorem ofCyCount1_sound (q : Cy.Query) (s : S1c.Query) (h : ofCyCount1 q = some s) : s.toCy = q := Proofs.ofCyCount1_sound q s h
+
+/-! ### stage S2n: the count aggregate over one directed hop — `tr5F` = all proved stages -/
+
+theorem tr5_some (flipOf : S2.Query → Bool) (flipCh : Ch.Query → Bool) (flipN : S2n.Query → Bool) (fast prune : Bool) (km : KindMap) (q : Cy.Query)
+    (st : Stmt) (ps : List (String × Val)) (h : tr5F flipOf flipCh flipN fast prune km q = some (st, ps)) :
+    tr4F flipOf flipCh fast prune km q = some (st, ps) ∨
+    (∃ s : S2n.Query, ofCyCount2 q = some s ∧ s.toCy = q ∧ s.trWith km (flipN s) prune = some st ∧ ps = []) := by
+  unfold tr5F at h
+  cases h1 : tr4F flipOf flipCh fast prune km q with
+  | some r => rw [h1] at h; cases h; exact Or.inl rfl
+  | none =>
+    rw [h1] at h
+    cases ho : ofCyCount2 q with
+    | none => rw [ho] at h; cases h
+    | some s =>
+      rw [ho] at h
+      simp only [Option.map_eq_some_iff] at h
+      obtain ⟨st', hst, heq⟩ := h
+      cases heq
+      exact Or.inr ⟨s, rfl, ofCyCount2_sound q s ho, hst, rfl⟩
+
+/-- `tr_sound_S2n`: MATCH (a)-[r]->(b) [WHERE single-variable conjuncts] RETURN count(x) [AS c] — for every graph with `GraphOK2`, both join
+orders and the hop frame pruned (to x and the variables of the WHERE conjuncts) or complete: whenever the statement evaluates, the reference
+semantics yields the same single row, the number of matches -/
+theorem tr_sound_S2n (km : KindMap) (g : Graph) (hok : GraphOK2 km g) (s : S2n.Query) (flip prune : Bool) (st : Stmt)
+    (h : s.trWith km flip prune = some st) (t : Table) (ht : Sql.eval (encode km g) st [] = .ok t) :
+    ∃ r, Cy.eval .none g s.toCy = .ok r ∧ Agree km g t r := by
+  obtain ⟨r, names, rows, hr, hsql, hrows⟩ := count_hop_sound km g hok s flip prune st h
+  rcases hsql with hsql | ⟨w, hsql⟩
+  · rw [hsql] at ht; cases ht; exact ⟨r, hr, hrows⟩
+  · rw [hsql] at ht; cases ht
+
+/-- THE PROVED PART over all five stages, for every join-order choice and with the fast path / projection pruning on or off -/
+theorem c01_partial_S5 (flipOf : S2.Query → Bool) (flipCh : Ch.Query → Bool) (flipN : S2n.Query → Bool) (fast prune : Bool) :
+    C01_bag_for (tr5F flipOf flipCh flipN fast prune) := by
+  intro km g q st ps hok h
+  rcases tr5_some flipOf flipCh flipN fast prune km q st ps h with h4 | ⟨s, _, hq, hst, hps⟩
+  · exact c01_partial_S4 flipOf flipCh fast prune km g q st ps hok h4
+  · subst hps hq
+    obtain ⟨r, names, rows, hr, hsql, hrows⟩ := count_hop_sound km g hok s (flipN s) prune st hst
+    refine ⟨fun t ht => ?_, fun m hm => ?_⟩
+    · rcases hsql with hsql | ⟨w, hsql⟩
+      · rw [hsql] at ht; cases ht
+        exact ⟨r, hr, by unfold AgreeBag; rw [hrows]⟩
+      · rw [hsql] at ht; cases ht
+    · rcases hsql with hsql | ⟨w, hsql⟩
+      · rw [hsql] at hm; cases hm
+      · rw [hsql] at hm; cases hm
+
+theorem ofCyCount2_sound (q : Cy.Query) (s : S2n.Query) (h : ofCyCount2 q = some s) : s.toCy = q := Proofs.ofCyCount2_sound q s h
 
 theorem ofCy2_sound (q : Cy.Query) (s : S2.Query) (h : ofCy2 q = some s) : s.toCy = q := Proofs.ofCy2_sound q s h
 
